@@ -76,15 +76,21 @@ def run(ctx):
                     ctx.sample({"kind": "TLC-generated program replayed on the real ParserState", "slice": name, **rep["sample"]})
     # nested checkpoints: programs grown symbol by symbol as TLC states (MC_PsmNest), two families
     allclosers = '{"seq", "seqfail", "restore", "restorefail", "lookpos", "looknegfail", "optfail", "optseqfail"}'
-    fams = [("fresh", '{"push", "drop"}', allclosers, 8 if quick else 9, 3 if quick else 4, 0),
+    fams = [("fresh", '{"push", "drop"}', allclosers, 8 if quick else 9, 3 if quick else 4, 0, 1),
             ("match", '{"pusha", "pushb", "stra", "peek", "pop", "matchpeek", "matchpop", "slice01", "sliceneg"}',
-             '{"seq", "seqfail", "optfail", "looknegfail", "lookpos"}', 5 if quick else 6, 2, 3)]
-    for (fam, prims, closers, syms, depth, ilen) in fams:
+             '{"seq", "seqfail", "optfail", "looknegfail", "lookpos"}', 5 if quick else 6, 2, 3, 1),
+            # what is emitted, kept and truncated when rules sit under atomic modes, look-ahead and failing sequences;
+            # a wrapper costs one symbol here, so four nested wrappers are within reach
+            ("tokens", '{"stra", "any"}',
+             '{"seqfail", "optseqfail", "atomA", "atomC", "rule1", "rule2", "looknegfail", "lookpos", "rep"}' if quick else
+             '{"seq", "seqfail", "optfail", "optseqfail", "atomA", "atomC", "atomN", "rule1", "rule2", "looknegfail", "lookpos", "rep", "stackpush"}',
+             4, 4, 2, 0)]
+    for (fam, prims, closers, syms, depth, ilen, ocost) in fams:
         cfgname = "MC_PsmNest_%s_run.cfg" % fam
         with open(os.path.join(SPEC, cfgname), "w") as f:
-            f.write("SPECIFICATION Spec\nCONSTANTS\n  MaxSyms = %d\n  MaxDepth = %d\n  Closers = %s\n  Prims = %s\n  InputLen = %d\n"
+            f.write("SPECIFICATION Spec\nCONSTANTS\n  MaxSyms = %d\n  MaxDepth = %d\n  Closers = %s\n  Prims = %s\n  InputLen = %d\n  OpenCost = %d\n"
                     "INVARIANTS NestedAllOrNothing NestedLookaheadNeutral PrimFailsInPlace NoSnapshotLeft Emit\nCHECK_DEADLOCK FALSE\n"
-                    % (syms, depth, closers, prims, ilen))
+                    % (syms, depth, closers, prims, ilen, ocost))
         try:
             r = tlc("MC_PsmNest", cfg=cfgname, workdir=ctx.work, outname="psm_nest_%s.out" % fam, workers=12, timeout=6000, xmx="8g")
         finally:
